@@ -668,6 +668,11 @@ pub mod verif_hooks {
     }
 
     /// Credits currently held by a chunk sender and whether the next frame is marked `first`.
+    /// Ports per port data message as computed by `Sender::connect`.
+    pub fn max_ports_per_message(chunk_size: usize, credits: u32) -> usize {
+        super::max_ports_per_message(chunk_size, credits)
+    }
+
     pub fn chunk_sender_state(c: &ChunkSender<'_>) -> (u32, bool) {
         (c.credits.available(), c.first)
     }
